@@ -488,6 +488,15 @@ fn app_main(node: u32, inc: u32, spec: NodeSpec, from_ms: u64, sc: Arc<Scenario>
         },
         NodeKind::RawPeer { port, joined } => Handle::Raw(net::raw_socket(v4, *port, *joined).unwrap()),
     };
+    // which simulated lock is this node's record store: the oracle follows that lock only (a
+    // changed repository may well introduce further locks)
+    match &handle {
+        Handle::Disc(d, _) => { ctl::mark(format!("storelock:{}", d.verif_store().sim_id())); }
+        Handle::Resp(r) => { ctl::mark(format!("storelock:{}", r.verif_store().sim_id())); }
+        Handle::ADisc(d, _) => { ctl::mark(format!("storelock:{}", d.verif_store().sim_id())); }
+        Handle::AResp(r) => { ctl::mark(format!("storelock:{}", r.verif_store().sim_id())); }
+        _ => {}
+    }
     let mut handle = handle;
     let mut recv_from_seq = 0u64;
     let mut seen: Vec<u32> = Vec::new();
